@@ -1,9 +1,52 @@
 import Wayfind.Model.Delete
 
+/-- `String::from_utf8_lossy` on bytes: every maximal invalid subpart becomes U+FFFD (`EF BF BD`) -/
+def lossy : Bytes → Bytes
+  | [] => []
+  | b :: rest =>
+    let bad : Bytes := [0xEF, 0xBF, 0xBD]
+    let cont (c : UInt8) : Bool := 0x80 ≤ c && c ≤ 0xBF
+    if b < 0x80 then b :: lossy rest
+    else if b < 0xC2 then bad ++ lossy rest
+    else if b < 0xE0 then
+      match rest with
+      | c :: r => if cont c then b :: c :: lossy r else bad ++ lossy (c :: r)
+      | [] => bad
+    else if b < 0xF0 then
+      let lo : UInt8 := if b == 0xE0 then 0xA0 else 0x80
+      let hi : UInt8 := if b == 0xED then 0x9F else 0xBF
+      match rest with
+      | c :: r =>
+        if lo ≤ c && c ≤ hi then
+          match r with
+          | d :: r' => if cont d then b :: c :: d :: lossy r' else bad ++ lossy (d :: r')
+          | [] => bad
+        else bad ++ lossy (c :: r)
+      | [] => bad
+    else if b < 0xF5 then
+      let lo : UInt8 := if b == 0xF0 then 0x90 else 0x80
+      let hi : UInt8 := if b == 0xF4 then 0x8F else 0xBF
+      match rest with
+      | c :: r =>
+        if lo ≤ c && c ≤ hi then
+          match r with
+          | d :: r' =>
+            if cont d then
+              match r' with
+              | e :: r'' => if cont e then b :: c :: d :: e :: lossy r'' else bad ++ lossy (e :: r'')
+              | [] => bad
+            else bad ++ lossy (d :: r')
+          | [] => bad
+        else bad ++ lossy (c :: r)
+      | [] => bad
+    else bad ++ lossy rest
+termination_by l => l.length
+decreasing_by all_goals simp_wf; all_goals omega
+
 def bytesToString (b : Bytes) : String :=
-  match String.fromUTF8? (ByteArray.mk b.toArray) with
+  match String.fromUTF8? (ByteArray.mk (lossy b).toArray) with
   | some s => s
-  | none => "�"      -- prototype: split multi-byte labels are not generated
+  | none => "?"      -- unreachable: `lossy` yields valid UTF-8
 
 /-- `state.key()` per child vector -/
 def keyOf (slot : Nat) (l : Label) : String :=
